@@ -87,7 +87,10 @@ func c14Worker(c *mc.Ctx) {
 		}
 		checked[d] = m
 	}
-	regen := func(stage, tree, loxBin string, deleteFirst bool) {
+	// how: the way the directory is named on the command line ("." from inside
+	// it, "root" = ./<dir> from the module root, "abs" = absolute path,
+	// "sibling" = ../<name>/ from a directory next to it).
+	regen := func(stage, tree, loxBin string, deleteFirst bool, how string) {
 		for _, d := range c14Dirs {
 			dir := filepath.Join(tree, d)
 			if deleteFirst {
@@ -96,7 +99,21 @@ func c14Worker(c *mc.Ctx) {
 				}
 			}
 			c.Stats.Evaluations++
-			out, err := run(dir, loxBin, ".")
+			var out string
+			var err error
+			switch how {
+			case "root":
+				out, err = run(tree, loxBin, "./"+d)
+			case "abs":
+				out, err = run("/", loxBin, dir)
+			case "sibling":
+				sib := filepath.Join(filepath.Dir(dir), "zz_elsewhere")
+				os.MkdirAll(sib, 0o777)
+				out, err = run(sib, loxBin, "../"+filepath.Base(dir)+"/")
+				os.Remove(sib)
+			default:
+				out, err = run(dir, loxBin, ".")
+			}
 			if err != nil {
 				violate(d, stage, "-", "lox failed on its own checked-in sources: "+firstLine(out))
 				continue
@@ -131,7 +148,7 @@ func c14Worker(c *mc.Ctx) {
 		c.Stats.HarnessError("%v", err)
 		return
 	}
-	regen("stage 1 (generator built from the tree, over the checked-in files)", t1, lox1, false)
+	regen("stage 1 (generator built from the tree, over the checked-in files)", t1, lox1, false, ".")
 	// Stage 1b: from the state "generated files deleted" (examples only: lox's own
 	// front end is needed to build lox, and is covered by stage 2).
 	t1b := filepath.Join(tmpRoot, "t1b")
@@ -139,14 +156,18 @@ func c14Worker(c *mc.Ctx) {
 		c.Stats.HarnessError("%v", err)
 		return
 	}
-	regen("stage 1b (generated files deleted first)", t1b, lox1, true)
+	regen("stage 1b (generated files deleted first)", t1b, lox1, true, ".")
+	// Stages 1c-1e: the same generator, the directory named in other ways.
+	regen("stage 1c (directory named from the module root: lox ./<dir>)", t1b, lox1, false, "root")
+	regen("stage 1d (directory named by its absolute path, from /)", t1b, lox1, false, "abs")
+	regen("stage 1e (directory named from a sibling directory: lox ../<name>/)", t1b, lox1, true, "sibling")
 	// Stage 2: build the generator from the regenerated tree and regenerate again.
 	lox2 := filepath.Join(tmpRoot, "lox2")
 	if out, err := run(t1, "go", "build", "-o", lox2, "./cmd/lox"); err != nil {
 		violate("internal/parser", "stage 2", "-", "the tree with the regenerated front end does not build: "+firstLine(out))
 		return
 	}
-	regen("stage 2 (generator rebuilt from the regenerated front end)", t1, lox2, false)
+	regen("stage 2 (generator rebuilt from the regenerated front end)", t1, lox2, false, ".")
 }
 
 func c14Replay(raw json.RawMessage) *mc.Violation {
@@ -165,7 +186,7 @@ func init() {
 	mc.Register(&mc.Check{
 		ID:     "C14",
 		Level:  "exploration",
-		Rule:   "finite space, explored completely: directories {internal/parser, examples/calc, examples/jsonc, examples/bolox} x {stage 1: generator built from the current tree over the checked-in files; stage 1b: generated files deleted first; stage 2: generator rebuilt from the regenerated front end}; every *.gen.go must be byte-identical to the checked-in file; non-trivial = one (file, stage) comparison",
+		Rule:   "finite space, explored completely: directories {internal/parser, examples/calc, examples/jsonc, examples/bolox} x {stage 1: generator built from the current tree over the checked-in files; stage 1b: generated files deleted first; stages 1c-1e: the directory named from the module root, by absolute path, from a sibling directory; stage 2: generator rebuilt from the regenerated front end}; every *.gen.go must be byte-identical to the checked-in file; non-trivial = one (file, stage) comparison",
 		Assume: []string{"go build of /repo's cmd/lox with the sandbox toolchain", "scratch copies live under /dev/shm and are removed"},
 		Worker: c14Worker,
 		Replay: c14Replay,
